@@ -382,12 +382,12 @@ def rule_e(ctx):
         n += 1
         # result flows into Try::branch
         tb = [x for x in pp.calls_to('Try::branch') if _is_result_of(arg_desc(F, x, 0), c)]
-        ctx.check(bool(tb), 'e', 'receive_errors_propagate', pp, c.where(), '%s(..)?' % short(c.f), 'the Result of %s is not propagated unchanged with `?`%s' % (short(c.f), _try_note(F, pp, c)))
+        ctx.check(bool(tb) or _err_returned_unchanged(F, pp, c), 'e', 'receive_errors_propagate', pp, c.where(), '%s(..)?' % short(c.f), 'the Result of %s is not propagated unchanged with `?`%s' % (short(c.f), _try_note(F, pp, c)))
     ctx.floor('e', 'propagating_calls', n, 7)
     pe = ctx.pfn('Connection::process_early_payload')
     for c in pe.calls_to('Connection::read_crypto', 'Connection::on_ack_received'):
         tb = [x for x in pe.calls_to('Try::branch') if _is_result_of(arg_desc(F, x, 0), c)]
-        ctx.check(bool(tb), 'e', 'receive_errors_propagate', pe, c.where(), '%s(..)?' % short(c.f), 'the Result of %s is not propagated unchanged with `?`%s' % (short(c.f), _try_note(F, pe, c)))
+        ctx.check(bool(tb) or _err_returned_unchanged(F, pe, c), 'e', 'receive_errors_propagate', pe, c.where(), '%s(..)?' % short(c.f), 'the Result of %s is not propagated unchanged with `?`%s' % (short(c.f), _try_note(F, pe, c)))
     ctx.floor('e', 'early_propagating_calls', len(pe.calls_to('Connection::read_crypto', 'Connection::on_ack_received')), 2)
 
 
@@ -413,6 +413,76 @@ def _is_result_of(d, call):
                 continue
             break
     return False
+
+
+_IS_OK, _IS_ERR = ('Result::is_ok',), ('Result::is_err',)
+
+
+def _result_tests(F, body, call):
+    """every branch that tests the Ok/Err discriminant of the Result of `call` itself: (Branch, ok target, err target).
+    `r?`, `match r { Ok(..) .. Err(..) }`, `if let Err(e) = r`, `let Ok(x) = r else` are all a switch on discr(r)
+    (Try::branch is the identity on the discriminant: Continue = Ok = 0, Break = Err = 1); `r.is_err()` / `r.is_ok()` /
+    their negations are the same test as a bool.  r may only be wrapped in combinators that keep an Err an Err
+    (_is_result_of): `r.ok()`, `r.or(..)`, `r.unwrap_or(..)`, `r.is_ok_and(..)` are NOT tests of r."""
+    out = []
+    for br in branches(F, body):
+        d = br.desc
+        if d[0] == 'discr':
+            if _is_result_of(d[1], call):
+                out.append((br, br.target(0), br.target(1)))
+            continue
+        inner, neg = peel_not(d)
+        if inner[0] == 'call' and len(inner[3]) == 1 and _is_result_of(inner[3][0], call):
+            name = _trait(inner[1])
+            if name in _IS_OK or name in _IS_ERR:
+                t_true, t_false = br.target(0 if neg else 1), br.target(1 if neg else 0)
+                out.append((br, t_true, t_false) if name in _IS_OK else (br, t_false, t_true))
+    return out
+
+
+def _err_returned_unchanged(F, body, call):
+    """the hand-written form of `call(..)?`: `match call(..) { Ok(v) => .., Err(e) => return Err(e) }` (or if-let / is_err).
+    On the Err edge of a test of the call's Result
+      * control never comes back to the test or the call (the error ends the function, it is not skipped over),
+      * every definition of the return place on that edge is `Err(<the Err payload of that very Result>)` (`.into()` / `From::from`
+        are conversions of the same error, erased by the describer) or the Result itself, and
+      * no path reaches the return without such a definition.
+    A replaced error (`Err(e) => return Err(OTHER(..))`), a swallowed one (`Err(_) => {}`) or a recovered one
+    (`Err(_) => default`) has none of these."""
+    d = describer(F, body)
+    rets = body.return_blocks()
+    for br, t_ok, t_err in _result_tests(F, body, call):
+        if t_err is None or t_err == t_ok:
+            continue
+        reach = body.reachable_from(t_err)
+        if br.bb in reach or call.bb in reach or not any(r in reach for r in rets):
+            continue
+        good, bad = set(), False
+        for df in body.defs_of(0):
+            if df[0] == 'arg' or df[1] not in reach:
+                continue
+            v = d.rvalue(df[3], df[1], df[2], 0) if df[0] == 'stmt' else None
+            if v is not None and _is_err_of(v, call):
+                good.add(df[1])
+            else:
+                bad = True
+        if bad or not good:
+            continue
+        if path_avoiding(body, [t_err], rets, good) is None:
+            return True
+    return False
+
+
+def _is_err_of(v, call):
+    """v is `Err(e)` with e the Err payload of the Result of `call` (or that Result itself, moved out whole)"""
+    if _is_result_of(v, call):
+        return True
+    if not (v[0] == 'agg' and v[1] == 'adt' and v[2].endswith('Result::Err') and len(v[3]) == 1):
+        return False
+    e = v[3][0]
+    if e[0] == 'call' and _trait(e[1]) == 'Result::unwrap_err' and len(e[3]) == 1:
+        return _is_result_of(e[3][0], call)
+    return e[0] == 'field' and e[2] == '0' and e[1][0] == 'variant' and e[1][2] == 'Err' and _is_result_of(e[1][1], call)
 
 
 def _trait(sh):
@@ -462,21 +532,18 @@ def rule_f(ctx):
     ing = rcv.calls_to('Recv::ingest')
     sts = [w.bb for w, v in store_values(ctx, SS, 'data_recvd', in_fn=rcv)]
     for c in ing:
-        tb = [x for x in rcv.calls_to('Try::branch') if contains_site(arg_desc(F, x, 0), c)]
-        ok = bool(tb)
+        ok = True
         path = None
-        nbr = 0
-        for br in branches(F, rcv):
-            # `?` on the ingest result (Try::branch is erased by the describer): variant 0 = Continue / Ok
-            if br.desc[0] == 'discr' and (contains_site(br.desc[1], c) or any(contains_site(br.desc[1], t) for t in tb)):
-                nbr += 1
-                cont = br.target(0)
-                p = path_avoiding(rcv, [cont], rcv.return_blocks(), sts)
-                if p is not None:
-                    ok = False
-                    path = p
-        ctx.check(ok and nbr >= 1, 'f', 'accepted_frame_always_accounted', rcv, c.where(), 'every path from ingest()? Ok to return stores data_recvd',
-                  'a path accepts stream data without adding it to data_recvd: ' + (fmt_path(rcv, path) if path else 'no `?` on the ingest result found'))
+        # every test of the ingest Result's discriminant (`?`, match, if-let, is_ok/is_err): its Ok edge is where a frame
+        # has been accepted.  (An Err edge that goes on to deliver is C06.b/error_edge_skips_delivery.)
+        tests = _result_tests(F, rcv, c)
+        for br, t_ok, t_err in tests:
+            p = path_avoiding(rcv, [t_ok], rcv.return_blocks(), sts)
+            if p is not None:
+                ok = False
+                path = p
+        ctx.check(ok and len(tests) >= 1, 'f', 'accepted_frame_always_accounted', rcv, c.where(), 'every path from ingest()? Ok to return stores data_recvd',
+                  'a path accepts stream data without adding it to data_recvd: ' + (fmt_path(rcv, path) if path else 'no test of the ingest Result (`?` / match) found'))
 
 
 def run(ctx):
